@@ -45,11 +45,23 @@ static void hexcat (const unsigned char *p, size_t n)
     }
 }
 
+/* what the converter must be asked about: the domain part of the address under test, byte for byte */
+static const char *g_expect_dom = NULL;
+static int g_convin_bad = 0;
+static char g_convin_hex[128];
+static void expect_domain_of (const char *email) { const char *at = strrchr (email, '@'); g_expect_dom = at ? at + 1 : NULL; }
+
 int __wrap_idn2_to_ascii_8z (const char *input, char **output, int flags)
 {
     int rc;
     bool faulted = false;
     conv_calls++;
+    if (g_expect_dom != NULL && input != NULL && strcmp (input, g_expect_dom) != 0 && !g_convin_bad) {
+        g_convin_bad = 1;
+        size_t n = strlen (input), k = 0;
+        for (size_t i = 0; i < n && k + 2 < sizeof g_convin_hex; i++) k += (size_t) snprintf (g_convin_hex + k, sizeof g_convin_hex - k, "%02x", (unsigned char) input[i]);
+        g_convin_hex[k] = 0;
+    }
     if (inject_rc != 0 && (inject_at < 0 || inject_at == op_conv_index)) {
         rc = inject_rc;
         faulted = true;
@@ -195,13 +207,17 @@ static eav_result_t *fake_cb (const char *e, size_t l, bool t)
  */
 static void run_history (FILE *out, char *script)
 {
-    eav_t *eav = malloc (sizeof *eav);
-    memset (eav, 0xA5, sizeof *eav);
+    eav_t *eav1 = malloc (sizeof *eav1), *eav2 = malloc (sizeof *eav2);
+    memset (eav1, 0xA5, sizeof *eav1);
+    memset (eav2, 0xA5, sizeof *eav2);
     char *save = NULL;
     int first = 1;
     for (char *op = strtok_r (script, ";", &save); op; op = strtok_r (NULL, ";", &save)) {
         if (!first) fputc (';', out);
         first = 0;
+        /* two independent objects: an op prefixed with `2` addresses the second one */
+        eav_t *eav = eav1;
+        if (op[0] == '2') { eav = eav2; op++; }
         switch (op[0]) {
         case 'i': eav_init (eav); fputc ('i', out); break;
         case 'r': eav->rfc = (EAV_RFC) mode_rfc (atoi (op + 1)); fputc ('r', out); break;
@@ -221,7 +237,9 @@ static void run_history (FILE *out, char *script)
             convlog_len += snprintf (convlog + convlog_len, sizeof convlog - convlog_len, " |");
             size_t n; unsigned char *raw = unhex (op + 1, &n);
             char *em = malloc (n + 1); memcpy (em, raw, n); em[n] = 0; free (raw);
+            expect_domain_of (em);
             int ret = eav_is_email (eav, em, n);
+            g_expect_dom = NULL;
             fprintf (out, "e%d %d ", ret, eav->errcode);
             putmsg (out, eav_errstr (eav));
             fputc (' ', out);
@@ -236,7 +254,7 @@ static void run_history (FILE *out, char *script)
     fprintf (out, ";R%ld,%ld,%ld,%ld", verif_resconf_created, verif_resconf_destroyed, verif_resconf_live, verif_resconf_bad_destroy);
     verif_resconf_created = verif_resconf_destroyed = verif_resconf_live = verif_resconf_bad_destroy = 0;
 #endif
-    free (eav);
+    free (eav1); free (eav2);
     inject_rc = 0;
 }
 
@@ -305,10 +323,12 @@ int main (int argc, char **argv)
         } else if (!strcmp (tok[0], "U") && nt == 3) {
             char *p = joined (tok[2], "00", &ls);
             int r = 0;
+            g_expect_dom = p;
             int rc = utf8dom (&r, p, p + ls, tok[1][0] == '1');
             fprintf (out, "%d %d", rc, rc == -EEAV_IDN_ERROR ? r : 0); free (p);
         } else if (!strcmp (tok[0], "E") && nt == 4) {
             char *p = joined (tok[3], "00", &ls);
+            expect_domain_of (p);
             eav_result_t *r = mode_fn (atoi (tok[1])) (p, ls, tok[2][0] == '1');
             put_result (out, r);
             eav_result_free (r); free (p);
@@ -323,6 +343,7 @@ int main (int argc, char **argv)
             int src = eav_setup (eav);
             if (src != 0) { fprintf (out, "setup%d ", src); putmsg (out, eav_errstr (eav)); }
             else {
+                expect_domain_of (p);
                 int ret = eav_is_email (eav, p, ls);
                 fprintf (out, "%d %d ", ret, eav->errcode);
                 putmsg (out, eav_errstr (eav));
@@ -409,6 +430,8 @@ int main (int argc, char **argv)
         } else {
             fprintf (out, "BADOP");
         }
+        if (g_convin_bad) fprintf (out, " CONVIN:%s", g_convin_hex);
+        g_convin_bad = 0; g_expect_dom = NULL;
         fputc ('\n', out);
         fprintf (lean, "%s%s\n", copy, convlog);
         free (copy);
